@@ -168,3 +168,52 @@ package iparser
 //@   ensures [C02] operator: old(len(g.ParseErrors)) == 0 ==> expr.AssignOperator == ctxText(ctx.BaseParserRuleContext)
 //@   modifies base.Assignment.AssignOperator
 
+// literals and names (C01, C02, C03): the callback's own text is parsed (base 10, 64 bits / float64 / bool; strings lose
+// their quotes) and handed to the node on top of the stack, once
+//@ func (*GengineParserListener).ExitInteger
+//@   props C01 C03
+//@   arith int unchecked
+//@   requires g != nil && ctx != nil
+//@   ghost handed int = 0
+//@   oncall base.IntegerHolder.AcceptInteger
+//@     assert [C01] value: handed == 0 && arg0 == parseIntF(ctxText(ctx.BaseParserRuleContext), 10, 64)
+//@     after handed := handed + 1
+
+//@ func (*GengineParserListener).ExitRealLiteral
+//@   props C01
+//@   arith int unchecked
+//@   requires g != nil && ctx != nil
+//@   ensures [C01] value: old(len(g.ParseErrors)) == 0 && len(g.ParseErrors) == 0 ==> rv_kind(cons.ConstantValue) == 14 && fsame(rv_f64(cons.ConstantValue), parseFloatF(ctxText(ctx.BaseParserRuleContext), 64))
+
+//@ func (*GengineParserListener).ExitBooleanLiteral
+//@   props C01
+//@   requires g != nil && ctx != nil
+//@   ensures [C01] value: old(len(g.ParseErrors)) == 0 && len(g.ParseErrors) == 0 ==> rv_kind(cons.ConstantValue) == 1 && rv_bool(cons.ConstantValue) == parseBoolF(ctxText(ctx.BaseParserRuleContext))
+
+//@ func (*GengineParserListener).ExitStringLiteral
+//@   props C01 C03
+//@   requires g != nil && ctx != nil
+//@   ghost handed int = 0
+//@   oncall base.StringHolder.AcceptString
+//@     assert [C01] value: handed == 0 && arg0 == strTrimF(ctxText(ctx.BaseParserRuleContext), "\"")
+//@     after handed := handed + 1
+//@   ensures [C01] once: old(len(g.ParseErrors)) == 0 ==> handed == 1
+
+//@ func (*GengineParserListener).ExitVariable
+//@   props C01 C02 C03
+//@   requires g != nil && ctx != nil
+//@   ghost handed int = 0
+//@   oncall base.VariableHolder.AcceptVariable
+//@     assert [C01] name: handed == 0 && arg0 == ctxText(ctx.BaseParserRuleContext)
+//@     after handed := handed + 1
+//@   ensures [C01] once: old(len(g.ParseErrors)) == 0 ==> handed == 1
+
+//@ func (*GengineParserListener).ExitConstant
+//@   props C01
+//@   requires g != nil && ctx != nil
+//@   ghost handed int = 0
+//@   oncall base.ConstantHolder.AcceptConstant
+//@     assert [C01] nonnil: handed == 0
+//@     after handed := handed + 1
+//@   ensures [C01] once: old(len(g.ParseErrors)) == 0 ==> handed == 1
+
